@@ -2,7 +2,7 @@ package props
 
 // C06 — Accepted AuthnRequests satisfy every validity condition.
 //
-// Oracle: "accepted" (a successful CreateAuthRequest in the storage log) implies that the
+// Oracle: "accepted" (a successful CreateAuthRequest in the storage log, or a redirect to the login) implies that the
 // harness's own evaluation of the bytes that were sent (own parameter splitting, base64 / DEFLATE
 // handling, strict XML reader, own timestamp parser, the SSO location the configuration must
 // advertise for the issuer in effect) finds no violated condition.
@@ -15,11 +15,12 @@ import (
 	"pgregory.net/rapid"
 
 	"verif/harness/ev"
+	"verif/harness/obs"
 	"verif/harness/spsim"
 	"verif/harness/world"
 )
 
-const c06Rule = "rapid: a valid AuthnRequest (all optional parts on/off, four prefix styles, both bindings) with 0..2 defects injected from a catalogue of 45 (decode layers, root element, Issuer absent/empty/unregistered/look-alike, ID, Version, Destination differing in host/path/case/slash/scheme/prefix, Conditions offsets from 1 s to 10 years and garbage lexical forms, unknown SAMLEncoding, SigAlg without Signature, empty/missing SAMLRequest) or 1..3 byte-level mutations of the XML, in one case of three behind a valid request of the same provider with the same ID (accepted, or lost in a DEFLATE stream that delivered the whole document and then broke off), against IdP configurations with static / host-derived / Forwarded-derived issuers and default / custom-path / external-URL SSO endpoints. Oracle: accepted => the harness's independent evaluation of the sent bytes finds no violated validity condition. Instants within 3 s of a boundary, lexical timestamp forms outside the UTC 'Z' form, duplicated Issuer/Conditions, empty Destination and URL-equivalent Destinations are executed and counted but not asserted. Non-trivial: one or two defects injected (or a byte mutation that leaves the message decodable). Distinct by (defect set, configuration vector, binding)."
+const c06Rule = "rapid: a valid AuthnRequest (all optional parts on/off, four prefix styles, both bindings) with 0..2 defects injected from a catalogue of 45 (decode layers, root element, Issuer absent/empty/unregistered/look-alike, ID, Version, Destination differing in host/path/case/slash/scheme/prefix, Conditions offsets from 1 s to 10 years and garbage lexical forms, unknown SAMLEncoding, SigAlg without Signature, empty/missing SAMLRequest) or 1..3 byte-level mutations of the XML, in one case of three behind a valid request of the same provider with the same ID (accepted, or lost in a DEFLATE stream that delivered the whole document and then broke off), against IdP configurations with static / host-derived / Forwarded-derived issuers and default / custom-path / external-URL SSO endpoints. Oracle: accepted (a request persisted, or the user agent sent on to the login) => the harness's independent evaluation of the sent bytes finds no violated validity condition. Instants within 3 s of a boundary, lexical timestamp forms outside the UTC 'Z' form, duplicated Issuer/Conditions, empty Destination and URL-equivalent Destinations are executed and counted but not asserted. Non-trivial: one or two defects injected (or a byte mutation that leaves the message decodable). Distinct by (defect set, configuration vector, binding)."
 
 func genC06Case(t *rapid.T) SSOCase {
 	spec := genSSOWorld(t, worldOpts{minACS: 1, maxACS: 2, issuerModes: []string{"static", "static", "host", "forwarded"}, customSSO: true, maxSPs: 3, entityIDChars: true})
@@ -92,7 +93,8 @@ var c06Catalogue = append(append([]Defect(nil), c08DefectCatalogue...),
 
 func c06Oracle(c SSOCase, r *ssoRun) []*ev.Violation {
 	okCalls, _ := createCalls(r.W)
-	if len(okCalls) == 0 {
+	// accepted: a request was persisted for it, or the user agent was sent on to the login (whatever was or was not persisted)
+	if len(okCalls) == 0 && obs.Decode(r.Rep).Kind != "login-redirect" {
 		return nil
 	}
 	if len(r.Sent.Violated) > 0 && len(r.Sent.Ambiguous) == 0 {
